@@ -85,6 +85,13 @@ namespace
 	char const *fn = getenv ("DWGREP_VERIF_TRACE");
 	fd = fn != nullptr && *fn != 0
 	  ? open (fn, O_WRONLY | O_CREAT | O_APPEND, 0644) : -1;
+	if (fd >= 0)
+	  {
+	    // A new process: earlier state buffers are gone.
+	    char const *msg = "{\"seq\":0,\"e\":\"reset\",\"sc\":\"0\",\"off\":0,"
+			      "\"sz\":0,\"ty\":\"process\"}\n";
+	    (void) !write (fd, msg, strlen (msg));
+	  }
       }
     return fd;
   }
